@@ -14,7 +14,8 @@ PROPERTY = "C02"
 CASE_TIMEOUT = 300  # s of wall clock per case in pool workers (runner watchdog): a case that spins forever is a verdict, not exit 2
 THEOREM_MODULE = "NemoVerif.Theorems.C02"
 METHOD = "C02.conv"
-RULE = ("case as in C01; 2-5 turns; emphasis on output-rail verdicts (reject / rewrite / raise) in any turn, every later turn is checked again. "
+RULE = ("case as in C01; 2-5 turns; emphasis on output-rail verdicts (reject / rewrite / raise) in any turn, every later turn is checked again; "
+        "calls that end by a PROPAGATED failure (LLMCallException out of a rail's / the generation LLM call, task cancellation at a chosen step) followed by a retry / another message from the last state the caller was given (state JSON, own State object, messages+cache) on the same LLMRails instance. "
         "non-trivial = at least one output rail configured AND (an invoked rail answered something other than accept OR >= 2 turns); distinct = distinct case JSON.")
 TRUSTED_BASE = [
     "translator harness/translate/c01.py, adapter harness/impl/pipeline.py, Lean driver Drive/C01.lean (shared with C01)",
@@ -72,12 +73,20 @@ def gen_cases(rng, tier):
             G.collapse_texts(rng, cfg)  # LLM texts / rewrites that repeat earlier ones
         if rng.random() < 0.2:
             G.random_opts(rng, cfg)  # 1.0: random per-call generation options
+        if rng.random() < 0.2:
+            G.inject_propagating(rng, cfg)  # one turn ends by a propagated failure (LLMCallException / cancellation), the conversation goes on
         cases.append(cfg)
     # texts that REPEAT around a turn hidden by a fault after `$bot_message` was set (action rails and pure-Colang rails,
     # history carried by messages+cache and by state), see pipeline_cases.REPEAT_PATTERNS
     cases.extend(G.repeat_cases(rng, tier, "out"))
     # ... and the bot message that repeats is the predefined refusal of an input rail (no LLM text in that turn at all)
     cases.extend(G.repeat_cases(rng, tier, "in", patterns=G.REFUSAL_REPEAT[:2] if tier == "quick" else G.REFUSAL_REPEAT))
+    # a call that ends by an exception which PROPAGATES out of `generate` in the middle of the turn (the LLM call inside an output /
+    # input rail or the generation call fails -> LLMCallException, the request's task is cancelled), at every kind of await point, in
+    # both Colang versions; the caller then retries / continues from the last state it was given (state JSON, a State object it
+    # decoded, its message list + cache) on the same LLMRails instance with a message answered by another flow: every later LLM
+    # text passes all output rails again
+    cases.extend(G.propagating_cases(rng, tier, "out"))
     # Colang 1.0 generation options per CALL (state API and messages): calls that switch the output rails off mixed with calls
     # that pass no options - the bot message of every call whose options enable the output rails passes all of them
     cases.extend(G.options_cases(rng, tier, "out"))
@@ -137,7 +146,7 @@ def turn_oracle(case, tc, to):
     for rid in cfg_out:
         chain.append((rid, cur))
         v = G.verdict_of(tc, "out", rid)
-        if v in ("r", "f"):
+        if v in ("r", "f", "x"):  # "x": the rail's own LLM call failed - the rail has not approved the message
             blocked = rid
             break
         if case["ver"] == "1.0" and G.is_rewrite(v):
@@ -179,6 +188,12 @@ def turn_oracle(case, tc, to):
 def oracle(case, obs):
     for k, (tc, to) in enumerate(zip(case["turns"], obs["turns"])):
         if to["raised"]:
+            if G.P.propagating(tc):
+                # "a ... failure in one turn never weakens the checking of later turns of the same conversation": the call ended by a
+                # failure that leaves `generate` by design (the LLM call of a rail / of the generation failed, the request was cancelled);
+                # nothing was returned for it, the caller goes on from the last state it was given - and every later LLM text must
+                # again pass all output rails before it is returned
+                continue
             return None
         msg = turn_oracle(case, tc, to)
         if msg:
